@@ -3,6 +3,7 @@
 Everything here is classical static analysis over the resolved MIR: CFG,
 dominators, reachability, reaching-definition expression recovery, edge
 conditions, call graph.  Nothing executes log4rs code."""
+import json
 import os
 import re
 from collections import defaultdict, deque
@@ -969,8 +970,174 @@ def cmp_nf(e, truth=True):
 # --------------------------------------------------------------------------
 
 
+def _adt_shape(a, selfpath):
+    """shape of a type for rename matching: kind, variant names (enums), field types in order with the type's own
+    path abstracted; field names are not part of it"""
+    rx = re.compile(r"(?<![A-Za-z0-9_:])" + re.escape(selfpath) + r"(?![A-Za-z0-9_])")
+    return json.dumps([a.get("kind"), [[("" if a.get("kind") != "enum" else v["name"]), [rx.sub("Self", f["ty"]) for f in v["fields"]]] for v in a.get("variants", [])]])
+
+
+def canonicalise_names(facts):
+    """Private items that were merely renamed get their baseline names back before any rule runs.
+
+    rules/baseline_adts.json and rules/baseline_fns.json record the types and functions of the pinned tree.  A type that
+    is not in the baseline while exactly one baseline type of the same module with the same shape (kind, variants, field
+    types in order) has vanished is that type under a new name; likewise a non-trait function with the same parent and
+    the same signature as exactly one vanished function.  Fields of a struct that kept its field types but not its
+    field names are mapped positionally.  The renames are applied to the fact file itself (paths are replaced as whole
+    path tokens), so every rule, allow-list key and finding key sees the names it was written for.  Nothing is decided
+    by this step: the bodies analysed are the current ones."""
+    here = os.path.join(os.path.dirname(os.path.dirname(os.path.abspath(__file__))), "rules")
+    pa, pf = os.path.join(here, "baseline_adts.json"), os.path.join(here, "baseline_fns.json")
+    if facts.get("meta", {}).get("crate") != "log4rs" or not (os.path.exists(pa) and os.path.exists(pf)):
+        return facts, {}
+    base_adts, base_fns = json.load(open(pa)), json.load(open(pf))
+    renames = {}
+
+    def parent(p):
+        return p.rsplit("::", 1)[0] if "::" in p else ""
+
+    def apply_paths(facts, mapping):
+        if not mapping:
+            return facts
+        txt = json.dumps(facts)
+        for new, old in sorted(mapping.items(), key=lambda kv: -len(kv[0])):
+            n_, o_ = json.dumps(new)[1:-1], json.dumps(old)[1:-1]
+            # a crate-root item is a bare identifier: it must not be the tail of a longer path
+            before = r"(?<![A-Za-z0-9_])" if "::" in new else r"(?<![A-Za-z0-9_:])"
+            txt = re.sub(before + re.escape(n_) + r"(?![A-Za-z0-9_])", lambda m: o_, txt)
+        facts = json.loads(txt)
+        # the constructor of a struct carries the struct's own short name
+        short_ = {old: (new.rsplit("::", 1)[-1], old.rsplit("::", 1)[-1]) for new, old in mapping.items() if old in facts.get("adts", {})}
+        if short_:
+            for pth, (ns_, os_) in short_.items():
+                for v in facts["adts"][pth].get("variants", []):
+                    if v.get("name") == ns_ and facts["adts"][pth].get("kind") != "enum":
+                        v["name"] = os_
+
+            def fix(o):
+                if isinstance(o, dict):
+                    if o.get("adt") in short_ and o.get("variant") == short_[o["adt"]][0]:
+                        o["variant"] = short_[o["adt"]][1]
+                    for v in o.values():
+                        fix(v)
+                elif isinstance(o, list):
+                    for v in o:
+                        fix(v)
+            fix(facts["fns"])
+        return facts
+    # 1. types
+    cur = facts["adts"]
+    gone = [p for p in base_adts if p not in cur]
+    new = [p for p in cur if p not in base_adts]
+    amap = {}
+    if gone and new:
+        gs = {}
+        for g in gone:
+            gs.setdefault((parent(g), _adt_shape(base_adts[g], g)), []).append(g)
+        ns = {}
+        for n in new:
+            ns.setdefault((parent(n), _adt_shape(cur[n], n)), []).append(n)
+        for k, nl in ns.items():
+            if len(nl) == 1 and len(gs.get(k, [])) == 1:
+                amap[nl[0]] = gs[k][0]
+    if amap:
+        facts = apply_paths(facts, amap)
+        renames.update(amap)
+    # 2. functions (after the type renames, so that signatures and impl paths agree again)
+    curf = {p: d for p, d in facts["fns"].items() if d.get("kind") in ("Fn", "AssocFn")}
+    gone = [p for p in base_fns if p not in curf]
+    new = [p for p, d in curf.items() if p not in base_fns and not d.get("impl_trait")]
+    fmap = {}
+    if gone and new:
+        gs = {}
+        for g in gone:
+            gs.setdefault((parent(g), _norm_sig(base_fns[g])), []).append(g)
+        ns = {}
+        for n in new:
+            ns.setdefault((parent(n), _norm_sig(curf[n].get("sig", ""))), []).append(n)
+        for k, nl in ns.items():
+            if len(nl) == 1 and len(gs.get(k, [])) == 1:
+                fmap[nl[0]] = gs[k][0]
+    if fmap:
+        facts = apply_paths(facts, fmap)
+        renames.update(fmap)
+    # 2b. variants of enums that kept their variants' positions and payload types
+    vmap = {}
+    for pth, a in facts["adts"].items():
+        b = base_adts.get(pth)
+        if not b or a.get("kind") != "enum" or len(a.get("variants", [])) != len(b.get("variants", [])):
+            continue
+        va, vb = a["variants"], b["variants"]
+        if {v["name"] for v in va} == {v["name"] for v in vb}:
+            continue
+        okv = all([f["ty"] for f in x["fields"]] == [f["ty"] for f in y["fields"]] for x, y in zip(va, vb))
+        kept = sum(1 for x, y in zip(va, vb) if x["name"] == y["name"])
+        if okv and kept >= len(va) - 2 and not ({x["name"] for x, y in zip(va, vb) if x["name"] != y["name"]} & {v["name"] for v in vb}):
+            for x, y in zip(va, vb):
+                if x["name"] != y["name"]:
+                    vmap[(pth, x["name"])] = y["name"]
+    if vmap:
+        def vfix(o):
+            if isinstance(o, dict):
+                a_ = o.get("adt")
+                if a_ is not None and (a_, o.get("variant")) in vmap:
+                    o["variant"] = vmap[(a_, o["variant"])]
+                if a_ is not None and isinstance(o.get("variants"), dict):
+                    o["variants"] = {k: vmap.get((a_, v), v) for k, v in o["variants"].items()}
+                if o.get("kind") == "enum" and "variant" in o and isinstance(o.get("ty"), str):
+                    for (ap, nv), ov in vmap.items():
+                        if o["variant"] == nv and ap in o["ty"]:
+                            o["variant"] = ov
+                for v in o.values():
+                    vfix(v)
+            elif isinstance(o, list):
+                for i, v in enumerate(o):
+                    if isinstance(v, dict) and "as" in v and len(v) == 1 and i + 1 < len(o) and isinstance(o[i + 1], dict) and (o[i + 1].get("adt"), v["as"]) in vmap:
+                        v["as"] = vmap[(o[i + 1]["adt"], v["as"])]
+                    vfix(v)
+        vfix(facts["fns"])
+        for (pth, n), o in vmap.items():
+            for v in facts["adts"][pth]["variants"]:
+                if v["name"] == n:
+                    v["name"] = o
+            renames["%s::%s" % (pth, n)] = "%s::%s" % (pth, o)
+    # 3. fields of structs that kept their field types
+    fld = {}
+    for pth, a in facts["adts"].items():
+        b = base_adts.get(pth)
+        if not b or a.get("kind") != "struct" or len(a.get("variants", [])) != 1 or len(b.get("variants", [])) != 1:
+            continue
+        fa, fb = a["variants"][0]["fields"], b["variants"][0]["fields"]
+        if len(fa) != len(fb) or [x["ty"] for x in fa] != [x["ty"] for x in fb]:
+            continue
+        for x, y in zip(fa, fb):
+            if x["name"] != y["name"]:
+                fld[(pth, x["name"])] = y["name"]
+    if fld:
+        def walk_json(o):
+            if isinstance(o, dict):
+                if "f" in o and "adt" in o and (o["adt"], o["f"]) in fld:
+                    o["f"] = fld[(o["adt"], o["f"])]
+                if o.get("k") == "agg" and o.get("agg") == "adt" and "field_names" in o:
+                    o["field_names"] = [fld.get((o.get("adt"), n), n) for n in o["field_names"]]
+                for v in o.values():
+                    walk_json(v)
+            elif isinstance(o, list):
+                for v in o:
+                    walk_json(v)
+        walk_json(facts["fns"])
+        for (pth, n), o in fld.items():
+            for x in facts["adts"][pth]["variants"][0]["fields"]:
+                if x["name"] == n:
+                    x["name"] = o
+            renames["%s.%s" % (pth, n)] = "%s.%s" % (pth, o)
+    return facts, renames
+
+
 class Program:
     def __init__(self, facts):
+        facts, self.renamed = canonicalise_names(facts)
         self.facts = facts
         self.meta = facts["meta"]
         self.adts = facts["adts"]
